@@ -30,6 +30,18 @@ Proof.
   apply legal_quiet. apply quiet_pushes.
 Qed.
 
+(* the messages of a sweep, per stage: a StartStage for that stage, or a task-level message (RunTask / StartTask) only for
+   a task of that stage that has NO message of its own in the queue - a sweep over a healthy run never duplicates the
+   task message in flight *)
+Theorem C10_sweep_no_duplicate_task_message : forall s i st m,
+  In m (recover_stage s i st) ->
+  match m with
+  | MRunTask j t | MStartTask j t => j = i /\ has_pending_for_task s i t = false
+  | MStartStage j _ => j = i
+  | _ => False
+  end.
+Proof. exact recover_no_duplicate_task_message. Qed.
+
 (* a planned RUNNING stage that waits for unfinished before stages gets NO message from the sweep (its before stages
    are swept as stages of their own): the sweep cannot run the stage's tasks ahead of them *)
 Theorem C10_sweep_leaves_waiting_parent : forall s i st,
@@ -51,3 +63,4 @@ Proof. vm_compute. repeat split; auto. Qed.
 Print Assumptions C10_sweep_only_pushes.
 Print Assumptions C10_sweep_legal.
 Print Assumptions C10_sweep_leaves_waiting_parent.
+Print Assumptions C10_sweep_no_duplicate_task_message.
